@@ -218,7 +218,24 @@ def body_history(case, ctx):
         ctx.event("both-clones-stepped")
 
 
+def _pt_cases():
+    """real ParallelTempering objects (worker processes; sorted, unsorted and tied temperature ladders): after every exchange round each
+    chain's last stored log-probability is the log-density of its last stored sample over its own temperature (the clauses
+    `stale-probability` / `exchange-probability` / `exchange-position` of the C08 history check, same generator and body)"""
+    from props import c08_tempering as c08
+
+    return c08.swap_cases()
+
+
+def _pt_body(case, ctx):
+    from props import c08_tempering as c08
+
+    return c08.body_swaps(case, ctx)
+
+
 SUBCHECKS = [
     Sub("history", lambda t: histories(), body_history, quick=1600, thorough=20000, shards_quick=16, shards_thorough=16, weight=5,
         rule=">= 1 accepted move after the start; when a clone exists, both samplers stepped"),
+    Sub("tempering", lambda t: _pt_cases(), _pt_body, quick=48, thorough=1500, shards_quick=16, shards_thorough=16, weight=60,
+        rule=">= 1 accepted and >= 1 rejected exchange with N >= 3"),
 ]
